@@ -444,7 +444,7 @@ def shouldSkip (r : Except Err Value) : Except Err Bool :=
   | .error x => .error x
 
 /-! ### driver
-  `expr <guards:6 bits> <stack> <ident 0|1|x> <nvars> (key value)* <parsed>` — everything is a prefix
+  `expr <guards:6 bits> <stack> <ident 0|1> <nvars> (key value)* <parsed>` — everything is a prefix
   token stream.  values: `N T F i<int> s<cp.cp…> L <n> … U <n> … D <n> (s<key> value)*`;
   expressions: `c <const>` `n s<id>` `a <e> s<attr>` `sub <e> <e>` `cmp <k> <e> (<op> <e>)*`
   `and|or <k> <e>*` `not|neg|pos|inv <e>` `if <e> <e> <e>` `list|tup <k> <e>*` `x <Kind>`;
@@ -606,15 +606,13 @@ def parseGuards (s : String) : Option Guards :=
     pure ⟨← bit a, ← bit b, ← bit c, ← bit d, ← bit e, ← bit f⟩
   | _ => Option.none
 
-/-- `ident`: `0`/`1` = answer of `is` on two non-singleton objects; `x` = the case evaluates such an
-    `is` (CPython-specific), so only the outcome class is printed -/
-def parseRequest (rest : String) : Option (Guards × Env × Nat × Parsed × Bool) :=
+/-- `ident`: `0`/`1` = the (constant) answer of `is` on two non-singleton objects -/
+def parseRequest (rest : String) : Option (Guards × Env × Nat × Parsed) :=
   match rest.splitOn " " with
   | gs :: stack :: ident :: nvars :: ts => do
     let g ← parseGuards gs
     let stack ← Parse.nat? stack
-    let classOnly := ident == "x"
-    let idb ← if classOnly then some false else Parse.bool? ident
+    let idb ← Parse.bool? ident
     let n ← Parse.nat? nvars
     let (vars, ts) ← parseMany (fun ts => match ts with
       | k :: ts => do
@@ -623,14 +621,14 @@ def parseRequest (rest : String) : Option (Guards × Env × Nat × Parsed × Boo
         pure ((key, v), ts)
       | [] => Option.none) n ts
     let p ← parseParsed ts
-    pure (g, { vars := vars, ident := fun _ _ => idb }, stack, p, classOnly)
+    pure (g, { vars := vars, ident := fun _ _ => idb }, stack, p)
   | _ => Option.none
 
 def drive (rest : String) : String :=
   match parseRequest rest with
-  | some (g, env, stack, p, classOnly) =>
+  | some (g, env, stack, p) =>
     match evaluate g env stack p with
-    | .ok v => if classOnly then "v ?" else "v " ++ showValue v
+    | .ok v => "v " ++ showValue v
     | .error e => "err " ++ e.name
   | Option.none => "bad-request"
 
